@@ -1,4 +1,6 @@
 pub mod ds;
 pub mod pdu;
+pub mod img;
+pub mod rle;
 pub mod tree;
 pub mod shrink;
